@@ -2,6 +2,7 @@ import MitmVerif.Model.C07
 import MitmVerif.Model.C07_Reader
 import MitmVerif.Model.C07_Exchange
 import MitmVerif.Model.C01
+import MitmVerif.Model.C07_Writer
 import Driver.Proto
 open MitmVerif Driver
 
@@ -127,6 +128,13 @@ def stepLine (line : String) : String :=
     | some b => match parseSize b with
       | some n => "ok " ++ showInt n
       | none => "err"
+    | none => "bad-op"
+  | ["frame", c, chunks] =>
+    -- the HTTP/1 writers' framing of a list of data events followed by the end of the message
+    match chunksOf chunks with
+    | some cs =>
+      if c ≠ "0" ∧ c ≠ "1" then "bad-op"
+      else showBytes (wireOf (c == "1") (cs.map Out.sendData ++ [Out.sendEnd]))
     | none => "bad-op"
   | ["te", h] =>
     -- reader's classification of a Transfer-Encoding value (C01.parseTE) and the writers' chunk-framing test
